@@ -77,13 +77,17 @@ struct to_integer_options {
 
     /// Accept an optional leading '+' (strtol, atoi, stoi, ...)
     bool allow_plus_sign = false;
+
+    /// Skip an optional 0x or 0X in front of the digits if base is 16 (strtol, stoi, ...)
+    bool allow_base_prefix = false;
 };
 
 /// \brief Grammar of the C library functions strtol, strtoul, atoi, ... (ISO C 7.22.1.4)
 inline constexpr auto to_integer_c_options = to_integer_options{
-    .skip_whitespace = true,
-    .check_overflow  = true,
-    .allow_plus_sign = true,
+    .skip_whitespace   = true,
+    .check_overflow    = true,
+    .allow_plus_sign   = true,
+    .allow_base_prefix = true,
 };
 
 enum struct to_integer_error : unsigned char {
@@ -137,6 +141,15 @@ template <integral Int, to_integer_options Options = to_integer_options{}>
         }
     }
     [[maybe_unused]] auto const positive = not hasMinus;
+
+    // optional prefix, only if a hex digit follows: "0xg" is the number 0 followed by "xg"
+    if constexpr (Options.allow_base_prefix) {
+        auto const hasPrefix = length - pos > 2 and str[pos] == '0' and (str[pos + 1] == 'x' or str[pos + 1] == 'X')
+                           and parseDigit(static_cast<int>(str[pos + 2])) < Int(16);
+        if (base == Int(16) and hasPrefix) {
+            pos += 2;
+        }
+    }
 
     // first digit
     auto value = [&] {
